@@ -2,7 +2,7 @@
 from . import gen
 
 # few names, sharing prefixes, with characters that sort below '/' ('-', '.', '+')
-UNI_NAMES = ["a", "a-b", "a.b", "a+b", "ab", "b", "oph", "ophelia", "x_rig", "B"]
+UNI_NAMES = ["a", "a-b", "a.b", "a+b", "ab", "b", "oph", "ophelia", "x_rig", "B", "rig"]
 
 
 def leaf_templates(model, vocab):
